@@ -60,6 +60,7 @@ type prover struct {
 	memo      map[ssa.Value]lin
 	depth     int
 	ipDone    bool
+	cbDone    bool
 	inConv    map[*ssa.Convert]bool
 	splitDone map[*ssa.Call]bool
 }
@@ -1194,6 +1195,7 @@ func (p *prover) entails(b *ssa.BasicBlock, l lin, c int64) bool {
 
 func (p *prover) entailsSplit(b *ssa.BasicBlock, l lin, c int64, given []dfact, done map[*ssa.BasicBlock]bool, depth int) bool {
 	p.paramFacts()
+	p.callbackFacts()
 	if p.entails0(b, l, c, given) {
 		return true
 	}
